@@ -439,7 +439,23 @@ def struct_cases(ctx, doc, oracle, only=None):
         groups = schema.distinct_versions(cname)
         for v in sg.VERSIONS:
             if v not in supported:
+                # below the class-level minimum version: the code raises VersionNotSupported on everything, the model
+                # (c_minver) refuses everything: tie it with the empty structure and with encodings valid for the first
+                # supported version
                 refusal_probe(ctx, cname, cls, tag, v)
+                for bs in [sg.hdr(tag, 1, 0)] + [sg.encode(tag, gen.struct(cname, supported[0], 0)) for _ in range(2 if quick else 6)]:
+                    obj, rest = impl_read(cls, bs, v)
+                    rew = impl_write(obj, v) if obj is not None else None
+                    sc = scase(v, tag, cname, bs, obj, rest, rew)
+                    if sc is None:
+                        continue
+                    cases.append(sc)
+                    meta.append({'class': cname, 'v': v, 'kind': 'below-minimum-version', 'value': '', 'hex': bs.hex(),
+                                 'impl': 'accept' if obj is not None else 'reject:' + rest})
+                    stats['mutated'] += 1
+                    stats['accept' if obj is not None else 'reject'] += 1
+                    ctx.count('struct.below-minver.k.%s' % ('accept' if obj is not None else 'reject'))
+                    ctx.case_seen((cname, v, bs), nontrivial=True)
                 continue
             stats['versions'].append(v)
             # a class without version guards behaves identically under every version: full budget for one
